@@ -25,8 +25,8 @@ BOUNDS = {
 
 RHS = ['h', 'h[0]', '[h, h]', '{"k": h}', 'y', '[1, [2]]', 'enumerate(h)', 'items(d)', 't', 'd', 'd["k"]',
        '[d, t]', 'h[1:]', 'reversed(h)', 'sorted(d)', 'x', 'x[0]', 'values(d)', 'map(h, v => v)',
-       'filter(h, v => True)', 'h if True else 0', 'get(d, "k")', 'pop(h)', '(v => v)(h)', 'z']
-RHS_SMALL = ['h', 'h[0]', '[h, h]', '{"k": h}', 'y', 'enumerate(h)', 'items(d)', 't', 'x[0]', 'get(d, "k")', 'z']
+       'filter(h, v => True)', 'h if True else 0', 'get(d, "k")', 'pop(h)', '(v => v)(h)', 'z', 'he', 'hd', 'd["e"]', '[he]', 't + t']
+RHS_SMALL = ['h', 'h[0]', '[h, h]', '{"k": h}', 'y', 'enumerate(h)', 'items(d)', 't', 'x[0]', 'get(d, "k")', 'z', 'he', 'hd']
 
 
 def actions(alpha):
@@ -42,9 +42,9 @@ def actions(alpha):
     acts += ['z = {}', 'x = []', 'x = [[0]]', 'y = [[5]]', 'f = v => v; x = f(h)', 'x = h; y = h', 'x = h; y = x',
              'x = [h]; y = x[0]', 'y = x', 'x = y']
     paths = ['x', 'x[0]', 'x[0][0]', 'y', 'y[0]', 'h', 'h[0]', 'z["k"]', 'z["k"][0]', 'd["k"]', 'x[1]', 'y[0][1]',
-             't[1]', 'x[0][1]']
+             't[1]', 'x[0][1]', 'he', 'hd', 'z["k"][1]']
     if alpha != 'full':
-        paths = ['x', 'x[0]', 'x[0][0]', 'y', 'y[0]', 'h[0]', 'z["k"]', 'd["k"]', 'x[0][1]', 't[1]']
+        paths = ['x', 'x[0]', 'x[0][0]', 'y', 'y[0]', 'h[0]', 'z["k"]', 'd["k"]', 'x[0][1]', 't[1]', 'he', 'z["k"][1]']
     for p in paths:
         acts.append(f'push({p}, 9)')
         acts.append(f'{p}[0] = 7')
@@ -60,9 +60,9 @@ def fresh_host():
     api = snapshot.api()
     D = api.Decimal
     h = [[D(1), D(2)], [D(3)]]
-    d = {'k': [D(1)], 'm': {'n': [D(4)]}}
+    d = {'k': [D(1)], 'm': {'n': [D(4)]}, 'e': []}
     t = ('id', [D(1), D(2)])
-    return {'h': h, 'd': d, 't': t}
+    return {'h': h, 'd': d, 't': t, 'he': [], 'hd': {}}
 
 
 def reach(v, out, keep):
@@ -253,7 +253,7 @@ def run_history(res, history, mode):
     """Replay on fresh host objects; returns canonical state (or None if the last step failed)."""
     install_setitem_wrappers()
     names = fresh_host()
-    host0 = {k: names[k] for k in ('h', 'd', 't')}
+    host0 = {k: names[k] for k in ('h', 'd', 't', 'he', 'hd')}
     host_expect = {k: plain(v) for k, v in host0.items()}
     w = Watch(res, history, mode)
     _watch[0] = w
@@ -309,17 +309,17 @@ def _mutates_host_directly(prog):
     out = set()
     for st in prog.split(';'):
         st = st.strip()
-        m = re.match(r'(push|pop|insert|remove)\((h|d|t)\b', st)
+        m = re.match(r'(push|pop|insert|remove)\((he|hd|h|d|t)\b', st)
         if m:
             out.add(m.group(2))
-        m = re.match(r'(del\s+)?(h|d|t)\b(\[[^=]*\])+\s*(=|\+=|-=|\*=|/=|$)', st)
+        m = re.match(r'(del\s+)?(he|hd|h|d|t)\b(\[[^=]*\])+\s*(=|\+=|-=|\*=|/=|$)', st)
         if m and (m.group(1) or m.group(4)):
             out.add(m.group(2))
-        m = re.search(r'=\s*pop\((h|d|t)\b', st)
+        m = re.search(r'=\s*pop\((he|hd|h|d|t)\b', st)
         if m:
             out.add(m.group(1))
-        if re.search(r'\bpop\((h|d|t)\b', st):
-            out.add(re.search(r'\bpop\((h|d|t)\b', st).group(1))
+        if re.search(r'\bpop\((he|hd|h|d|t)\b', st):
+            out.add(re.search(r'\bpop\((he|hd|h|d|t)\b', st).group(1))
     return out
 
 
